@@ -29,6 +29,9 @@ RULE = ('Accepted ISA definitions from the broad generator plus 0..3 macros and 
         'appended / prepended / removed, unrelated identifiers) by none. Non-trivial = the vocabulary has a prefix '
         'pair or a name with a regex metacharacter, or an empty macro/register set. Distinct = SHA-1 of the case JSON.')
 ASSUMPTIONS = [
+    'the order of keyword alternatives inside the generated patterns follows Python set iteration and differs between '
+    'processes; no listed property asks for byte-identical extension files, so the fork/subprocess faithfulness '
+    'cross-check is not applied to this check',
     'TextMate/Sublime patterns are evaluated with Python re; the generated patterns only use (?i), \\b, groups, '
     'alternation and fixed-width look-behind, a subset on which Oniguruma and Python re agree (ordered alternation, '
     'leftmost match)',
@@ -152,7 +155,7 @@ def execute(case, ctx):
     findings = []
     evals = 0
     # ---------------- VS Code
-    r = runner.run_forked(['generate-extension', 'vscode', '-c', fname, '-d', 'vs'], {fname: text})
+    r = runner.run_forked(['generate-extension', 'vscode', '-c', fname, '-d', 'vs'], {fname: text}, crosscheck=False)
     evals += 1
     if r.klass != 'accepted':
         findings.append(Finding('C20/vscode/generation-failed', dict(detail, run=r.brief())))
@@ -195,7 +198,7 @@ def execute(case, ctx):
                         if p.get('name') == 'keyword.control.preprocessor':
                             check_class(findings, detail, 'vscode', 'preprocessor', p['match'], PREPROC, prefix='#', ctx_before='')
     # ---------------- Sublime
-    r = runner.run_forked(['generate-extension', 'sublime', '-c', fname, '-d', '.'], {fname: text})
+    r = runner.run_forked(['generate-extension', 'sublime', '-c', fname, '-d', '.'], {fname: text}, crosscheck=False)
     evals += 1
     pk = [k for k in r.outputs if k.endswith('.sublime-package')]
     if r.klass != 'accepted' or not pk:
